@@ -33,6 +33,14 @@ pub struct MetaCase {
     pub transforms: Vec<Transform>,
     /// the second framework for disjoint union
     pub g2: AbsGraph,
+    /// (target, attackers, defeated): `attackers` fresh unattacked arguments all attack `target`; the first
+    /// `defeated` of them are themselves attacked by one more fresh unattacked argument. In-degrees of several
+    /// hundred arise while every semantics stays trivial on the new arguments.
+    #[serde(default)]
+    pub fan: Option<(u16, u16, u16)>,
+    /// pad with isolated-chain arguments up to the next multiple of 64 arguments
+    #[serde(default)]
+    pub pad64: bool,
 }
 
 #[derive(Clone, Debug, PartialEq, Eq, Hash, Serialize, Deserialize)]
@@ -41,6 +49,8 @@ pub enum Transform {
     Permute(Vec<u8>),
     ShuffleAttacks(Vec<u8>),
     DuplicateAttacks(Vec<u16>),
+    /// one attack line repeated several hundred times
+    RepeatOneAttack(u16, u16),
     ToAspartix(u8),
     ToIccma,
     UnionWithG2 { before: bool },
@@ -104,6 +114,35 @@ fn assemble(case: &MetaCase) -> BigGraph {
         let a = offs[i] + idx(*x, case.blocks[i].n);
         let b = offs[j] + idx(*y, case.blocks[j].n);
         att.push((a as u16, b as u16));
+    }
+    let mut n = n;
+    if let Some((t, k, d)) = case.fan {
+        if n > 0 {
+            let target = idx(t, n);
+            let k = k as usize;
+            let first = n;
+            for j in 0..k {
+                att.push(((first + j) as u16, target as u16));
+            }
+            n += k;
+            let d = (d as usize).min(k);
+            if d > 0 {
+                let killer = n;
+                n += 1;
+                for j in 0..d {
+                    att.push((killer as u16, (first + j) as u16));
+                }
+            }
+        }
+    }
+    if case.pad64 && n % 64 != 0 {
+        // a chain x1 -> x2 -> ... appended after everything else
+        let first = n;
+        let add = 64 - n % 64;
+        for j in 1..add {
+            att.push(((first + j - 1) as u16, (first + j) as u16));
+        }
+        n += add;
     }
     BigGraph { n, att }
 }
@@ -345,7 +384,7 @@ impl Prop for Meta {
         "C11"
     }
     fn rule(&self) -> String {
-        "Frameworks of 20-300 arguments assembled from 4-40 blocks of <=8 arguments (random digraphs, cycles with chords, symmetric clusters, self-attackers, isolated arguments) joined by one-directional links so that several connected components of very different sizes arise; 4-8 queried arguments; all 14 DC/DS problems plus the 7 SE problems with a generated encoder choice. 2-4 transformations are composed at random: permutation of names/declaration order, permutation of attack lines, repetition of attack lines, switch ICCMA'23 <-> Aspartix, disjoint union with a second framework of <=6 arguments (before or after), removal of a component of <=12 arguments not holding a queried argument. Oracle (metamorphic): every status is unchanged (ST under union/removal: unchanged iff the other part has a stable extension, otherwise DS=YES/DC=NO everywhere); returned extensions are valid by polynomial necessary conditions (conflict-free; complete for CO/PR/SST/ID; stable for ST). Consistency on each framework: GR within ID within the SE-PR answer; DC-CO = DC-PR; DS implies DC when an extension exists; ST, SST, STG agree when SE-ST returns an extension; DS-CO = grounded membership = DC-GR = DS-GR. Non-trivial: >=20 arguments, >=2 transformations and a queried argument neither in the grounded extension nor attacked by it; distinct = case.".into()
+        "Frameworks of 20-300 arguments assembled from 4-40 blocks of <=8 arguments (random digraphs, cycles with chords, symmetric clusters, self-attackers, isolated arguments) joined by one-directional links so that several connected components of very different sizes arise; in 30% of the cases a fan gadget adds 1-600 fresh unattacked arguments that all attack one queried argument, some of them defeated by one more argument (in-degrees of several hundred); in 20% the framework is padded to a multiple of 64 arguments; 4-8 queried arguments; all 14 DC/DS problems plus the 7 SE problems with a generated encoder choice. 2-4 transformations are composed at random: permutation of names/declaration order, permutation of attack lines, repetition of attack lines (a few lines once, or one line 200-700 times), switch ICCMA'23 <-> Aspartix, disjoint union with a second framework of <=6 arguments (before or after), removal of a component of <=12 arguments not holding a queried argument. Oracle (metamorphic): every status is unchanged (ST under union/removal: unchanged iff the other part has a stable extension, otherwise DS=YES/DC=NO everywhere); returned extensions are valid by polynomial necessary conditions (conflict-free; complete for CO/PR/SST/ID; stable for ST). Consistency on each framework: GR within ID within the SE-PR answer; DC-CO = DC-PR; DS implies DC when an extension exists; ST, SST, STG agree when SE-ST returns an extension; DS-CO = grounded membership = DC-GR = DS-GR. Non-trivial: >=20 arguments, >=2 transformations and a queried argument neither in the grounded extension nor attacked by it; distinct = case.".into()
     }
     fn assumptions(&self) -> Vec<String> {
         vec![
@@ -365,6 +404,7 @@ impl Prop for Meta {
             3 => vec(any::<u8>(), 16).prop_map(Transform::Permute),
             2 => vec(any::<u8>(), 16).prop_map(Transform::ShuffleAttacks),
             2 => vec(any::<u16>(), 1..=6).prop_map(Transform::DuplicateAttacks),
+            1 => (any::<u16>(), 200u16..700).prop_map(|(w, t)| Transform::RepeatOneAttack(w, t)),
             2 => (0u8..3).prop_map(Transform::ToAspartix),
             1 => Just(Transform::ToIccma),
             3 => any::<bool>().prop_map(|before| Transform::UnionWithG2 { before }),
@@ -377,8 +417,14 @@ impl Prop for Meta {
             any::<u8>(),
             vec(transform, 2..=4),
             gen::graph(6),
+            prop_oneof![5 => Just(None), 1 => (any::<u16>(), 1u16..40, any::<u16>()).prop_map(Some), 1 => (any::<u16>(), 240u16..600, any::<u16>()).prop_map(Some)],
+            prop_oneof![4 => Just(false), 1 => Just(true)],
         )
-            .prop_map(|(blocks, links, queried, enc_pick, transforms, g2)| MetaCase { blocks, links, queried, enc_pick, transforms, g2 })
+            .prop_map(|(blocks, links, queried, enc_pick, transforms, g2, fan, pad64)| {
+                // the number of defeated attackers is all, all but a few, or about half
+                let fan = fan.map(|(t, k, d): (u16, u16, u16)| (t, k, match d % 4 { 0 => k, 1 => k.saturating_sub(1 + d % 3), 2 => k / 2, _ => d % (k + 1) }));
+                MetaCase { blocks, links, queried, enc_pick, transforms, g2, fan, pad64 }
+            })
             .boxed()
     }
     fn n_cases(&self, tier: Tier) -> u32 {
@@ -389,17 +435,30 @@ impl Prop for Meta {
     }
     fn run(&self, case: &MetaCase, rec: &mut Rec) -> CheckResult {
         let g = assemble(case);
-        if g.n == 0 || g.n > 320 {
+        if g.n == 0 || g.n > 1100 {
             return Ok(());
         }
         let adj = Adj::new(&g);
         let comps = adj.components();
         let queried: Vec<usize> = {
             let mut q: Vec<usize> = case.queried.iter().map(|r| idx(*r, g.n)).collect();
+            if let Some((t, _, _)) = case.fan {
+                // the target of the fan gadget is always among the queried arguments
+                let n0: usize = case.blocks.iter().map(|b| b.n).sum();
+                if n0 > 0 {
+                    q.push(idx(t, n0));
+                }
+            }
             q.sort();
             q.dedup();
             q
         };
+        if case.fan.map_or(false, |f| f.1 >= 200) {
+            rec.class("fan-in-of-several-hundred-attackers");
+        }
+        if case.pad64 {
+            rec.class("argument-count-multiple-of-64");
+        }
         let base = Presented::new(g.clone());
         let e0 = eval_presented(&base, &queried, case.enc_pick, "C11/base")?;
         rec.eval();
@@ -441,6 +500,16 @@ impl Prop for Meta {
                         applied.push("duplicate-attacks");
                     }
                 }
+                Transform::RepeatOneAttack(which, times) => {
+                    if !p.lines.is_empty() {
+                        let x = p.lines[idx(*which, p.lines.len())];
+                        let at = idx(which.wrapping_mul(17), p.lines.len() + 1);
+                        for _ in 0..(*times as usize % 700) {
+                            p.lines.insert(at, x);
+                        }
+                        applied.push("repeat-one-attack");
+                    }
+                }
                 Transform::ToAspartix(s) => {
                     p.apx_style = Some(*s);
                     applied.push("to-aspartix");
@@ -451,7 +520,7 @@ impl Prop for Meta {
                 }
                 Transform::UnionWithG2 { before } => {
                     let g2 = &case.g2;
-                    if g2.n == 0 || p.g.n + g2.n > 330 {
+                    if g2.n == 0 || p.g.n + g2.n > 1200 {
                         continue;
                     }
                     let off = p.g.n;
